@@ -76,6 +76,11 @@ pub struct GatherPlan {
     /// the custom collector leaves the type of its counter families unset (the default type applies)
     #[serde(default)]
     pub custom_type_unset: bool,
+    /// concurrent runs: the last `stable` children of every vector are left alone by the remover; they
+    /// must appear exactly once in the gather that runs during the churn and at quiescence (crowded
+    /// vectors: an implementation may walk many children in several steps)
+    #[serde(default)]
+    pub stable: usize,
 }
 
 const BOUNDS: [f64; 2] = [4.0, 64.0];
@@ -145,6 +150,7 @@ pub fn gen_plan(seed: u64, mixed_kinds: bool) -> GatherPlan {
     // focused churn plans: one vector with a single child (plus at most one other collector), so that
     // "the last child is removed while a new one is created" meets its schedule often
     let focus = !mixed_kinds && r.chance(12);
+    let mut stable = 0usize;
     if focus {
         let mut v: Vec<MetricSpec> = metrics.iter().filter(|m| m.kind.is_vec()).take(1).cloned().collect();
         if v.is_empty() {
@@ -157,6 +163,13 @@ pub fn gen_plan(seed: u64, mixed_kinds: bool) -> GatherPlan {
         }
         if let Some(o) = metrics.iter().find(|m| !m.kind.is_vec() && m.name != v[0].name) {
             v.push(o.clone());
+        }
+        if r.chance(20) {
+            stable = *r.pick(&[40usize, 130, 130, 260]);
+            for i in 0..stable {
+                let vals: Vec<String> = v[0].vars.iter().map(|_| format!("s{:03}", i)).collect();
+                v[0].children.push((vals, 1));
+            }
         }
         metrics = v;
     }
@@ -172,7 +185,8 @@ pub fn gen_plan(seed: u64, mixed_kinds: bool) -> GatherPlan {
     let prefix = if r.chance(40) { Some(r.pick(&["pre", "ns_x"]).to_string()) } else { None };
     let ncommon = r.below(4) as usize;
     let common: Vec<(String, String)> = ["zone", "dc", "rack"][..ncommon.min(3)].iter().map(|s| (s.to_string(), format!("c{}", r.below(3)))).collect();
-    let env = Env::swarm(&mut r, k, 200, false);
+    let mut env = Env::swarm(&mut r, k, 200, false);
+    env.max_steps += stable as u64 * 600;
     // history prelude: a collector of ANOTHER kind under one of the names (same help and label names),
     // registered and unregistered before the content
     let mut prelude = vec![];
@@ -189,7 +203,7 @@ pub fn gen_plan(seed: u64, mixed_kinds: bool) -> GatherPlan {
             prelude.push(t);
         }
     }
-    GatherPlan { env, prefix, common, metrics, orders, hash_seeds, concurrent_gather: focus || r.chance(30), prelude, custom: vec![], poison: r.chance(15), custom_type_unset: false }
+    GatherPlan { env, prefix, common, metrics, orders, hash_seeds, concurrent_gather: focus || r.chance(30), prelude, custom: vec![], poison: r.chance(15), custom_type_unset: false, stable }
 }
 
 fn hist_model(v: u32) -> compat::PHist {
@@ -521,7 +535,7 @@ pub fn run_replicas(plan: &GatherPlan, mode: Mode) -> (crate::engine::RunResult,
                 let nvars: Vec<usize> = order.iter().filter(|&&i| plan.metrics[i].kind.is_vec()).map(|&i| plan.metrics[i].vars.len()).collect();
                 *reg0.lock().unwrap() = Some(reg.clone());
                 // a second thread removes every ORIGINAL child of every vector meanwhile
-                let originals: Vec<Vec<Vec<String>>> = order.iter().filter(|&&i| plan.metrics[i].kind.is_vec()).map(|&i| plan.metrics[i].children.iter().map(|c| c.0.clone()).collect()).collect();
+                let originals: Vec<Vec<Vec<String>>> = order.iter().filter(|&&i| plan.metrics[i].kind.is_vec()).map(|&i| { let ch = &plan.metrics[i].children; ch[..ch.len().saturating_sub(plan.stable)].iter().map(|c| c.0.clone()).collect() }).collect();
                 let mut vecs2: Vec<Built> = vec![];
                 for b in &vecs {
                     match b {
@@ -687,6 +701,23 @@ fn execute_c07(plan: &GatherPlan, mode: Mode) -> RunOut {
                     }
                 }
             }
+            // children nobody touches are there exactly once
+            if plan.stable > 0 {
+                for m in plan.metrics.iter().filter(|m| m.kind.is_vec()) {
+                    let name = match &plan.prefix {
+                        Some(p) => format!("{}_{}", p, m.name),
+                        None => m.name.clone(),
+                    };
+                    let fam: Vec<PFamily> = c.iter().filter(|f| f.name.as_deref() == Some(name.as_str())).filter_map(|f| strip_common(plan, f).ok()).collect();
+                    for (vals, _) in &m.children[m.children.len().saturating_sub(plan.stable)..] {
+                        let n = fam.iter().flat_map(|f| f.metrics.iter()).filter(|x| m.consts.iter().all(|c| x.labels.contains(c)) && m.vars.iter().zip(vals.iter()).all(|(k, v)| x.labels.iter().any(|(a, b)| a == k && b == v))).count();
+                        if n != 1 {
+                            out.violations.push(Violation::new("C07/complete", "C07/complete-during-churn", format!("replica {} (concurrent gather): child {:?} of {:?}, which nobody removes, appears {} times", k, vals, name, n)));
+                            break;
+                        }
+                    }
+                }
+            }
             // samples of collectors that nobody touches (non-vector metrics) are still there, unchanged
             for m in plan.metrics.iter().filter(|m| !m.kind.is_vec()) {
                 let name = match &plan.prefix {
@@ -707,7 +738,10 @@ fn execute_c07(plan: &GatherPlan, mode: Mode) -> RunOut {
         let mut p2 = plan.clone();
         for m in p2.metrics.iter_mut() {
             if m.kind.is_vec() {
+                let keep_from = m.children.len().saturating_sub(plan.stable);
+                let stable_children: Vec<(Vec<String>, u32)> = m.children[keep_from..].to_vec();
                 m.children = ["zz_new1", "zz_new3", "zz_new2"].iter().map(|x| (m.vars.iter().map(|_| x.to_string()).collect(), 1u32)).collect();
+                m.children.extend(stable_children);
             }
         }
         let want2 = model_gather(&p2);
